@@ -20,7 +20,7 @@ def plan(pid, tier, seed):
     quick = tier == "quick"
     if quick:
         mc = [
-            # 1 271 310 states, ~20 s: 226 k classes, sampled
+            # 819 530 states, ~15 s: 113 k classes, sampled
             {"module": "X02Suggest", "cfg": "X02Suggest_MC_quick.cfg", "emit": True, "sample": 3000, "properties": PROPS, "timeout": 900},
             # two classes in one model: 173 566 states, ~5 s
             {"module": "X02Suggest", "cfg": "X02Suggest_MC_pair.cfg", "emit": True, "sample": 1000, "properties": PROPS, "timeout": 600},
